@@ -45,6 +45,10 @@ func render(doc map[string]any) (string, error) {
 // does up to service construction: ConfigProvider.Get, xconfmap.Validate and
 // confmap.New().Marshal(cfg).
 func loadDoc(doc map[string]any, withEff bool) (l loaded) {
+	return loadDocWith(theFactories, doc, withEff)
+}
+
+func loadDocWith(facs otelcol.Factories, doc map[string]any, withEff bool) (l loaded) {
 	text, err := render(doc)
 	if err != nil {
 		l.loadErr = fmt.Errorf("harness: cannot render: %w", err)
@@ -60,7 +64,7 @@ func loadDoc(doc map[string]any, withEff bool) (l loaded) {
 			return
 		}
 		defer func() { _ = prov.Shutdown(context.Background()) }()
-		l.cfg, l.loadErr = prov.Get(context.Background(), theFactories)
+		l.cfg, l.loadErr = prov.Get(context.Background(), facs)
 		if l.loadErr != nil {
 			return
 		}
